@@ -5,6 +5,7 @@ pub mod c01;
 pub mod c03;
 pub mod c04;
 pub mod c06;
+pub mod c20;
 
 pub fn replay(id: &str, file: &str) -> i32 {
     let mut run = Run::new(id, Tier::Quick, "exploration");
@@ -16,6 +17,7 @@ pub fn replay(id: &str, file: &str) -> i32 {
         "C04" => c04::replay_c04(&mut run, f),
         "C05" => c04::replay_c05(&mut run, f),
         "C06" => c06::replay(&mut run, f),
+        "C20" => c20::replay(&mut run, f),
         _ => None,
     };
     match r {
